@@ -455,7 +455,11 @@ def main():
 
     # ---- verdict -------------------------------------------------------------
     known = load_known()
-    witnesses = [w for r in stream_res for w in r.get("witnesses", []) if w["property"] == pid]
+    # a panic or hang of the implementation while running this property's streams is a
+    # failing input for this property too, whatever property the oracle filed it under
+    def relevant(w):
+        return w["property"] == pid or w["signature"].endswith("panic") or w["signature"].endswith("hang")
+    witnesses = [w for r in stream_res for w in r.get("witnesses", []) if relevant(w)]
     open_sigs = {(k["property"], k["signature"]) for k in known.get("open", [])}
     new, seen_known = [], {}
     for w in witnesses:
